@@ -1,8 +1,10 @@
 package props
 
 import (
+	"encoding/binary"
 	"fmt"
 	"math"
+	"strconv"
 	"strings"
 	"testing"
 	"time"
@@ -305,6 +307,15 @@ func runC03(t *testing.T, seed uint64, m *Mask) *Report {
 					case "badtype":
 						mtype = byte(6 + e.Gen.Intn(200))
 					}
+					if bb, isBytes := body.([]byte); proto == "raw" && (isBytes || body == nil) && len(method) < 256 && e.Gen.Chance(0.5) {
+						// a client that is not teleport: the frame is laid out by hand from the documented format of the
+						// raw protocol, independently of teleport's own Pack
+						if _, err := x.raw.Conn.Write(c03RawFrame(mtype, f.seq, method, f.codec, bb, "Mk=v")); err == nil {
+							f.sent = true
+						}
+						e.Probe("c03-hand-made-raw-frames")
+						continue
+					}
 					if err := x.raw.Send(mtype, f.seq, method, f.codec, body, nil, [][2]string{{"Mk", "v"}}, nil); err == nil {
 						f.sent = true
 					}
@@ -429,4 +440,23 @@ func (p *c03Panicker) PreWriteReply(c erpc.WriteCtx) *erpc.Status {
 		_ = *body
 	}
 	return nil
+}
+
+// c03RawFrame lays out a frame of the default (raw) protocol by hand, from the format documented in
+// socket/protocol.go (as its Unpack reads it): {4 bytes length, itself included}{1 byte filter count}{filters}
+// {1 byte sequence length}{sequence: base-36 text of an int32}{1 byte type}{1 byte method length}{method}
+// {2 bytes status length}{status}{2 bytes metadata length}{metadata}{1 byte body codec}{body}.
+func c03RawFrame(mtype byte, seq int32, method string, codec byte, body []byte, meta string) []byte {
+	sq := strconv.FormatInt(int64(seq), 36)
+	f := []byte{0, 0, 0, 0, 0, byte(len(sq))}
+	f = append(f, sq...)
+	f = append(f, mtype, byte(len(method)))
+	f = append(f, method...)
+	f = append(f, 0, 0) // no status
+	f = append(f, byte(len(meta)>>8), byte(len(meta)))
+	f = append(f, meta...)
+	f = append(f, codec)
+	f = append(f, body...)
+	binary.BigEndian.PutUint32(f, uint32(len(f)))
+	return f
 }
